@@ -6,17 +6,23 @@ from .lib import (ITER_PLUMBING, PLUMBING, callee_allow, callers, http_error_cto
 from .lib_c03 import DECODE, decode_region, element_origins, empties_dropped, entries_in, error_yields, feeds_output, membership_tests, output_unmodified, sinks, split_source
 
 LEVEL = "other"
-TECHNIQUE = "static analysis: MIR data-flow slices and path-sensitive guard facts over input_path_to_segments / lookup_route (decode-after-split chain, dot-segment guards on the decoded value, 400-before-lookup)"
+TECHNIQUE = ("static analysis: MIR data-flow slices and path-sensitive guard facts over input_path_to_segments / lookup_route, anchored by role "
+             "(the per-segment step = the code holding the decoding call; decode-after-split chain, dot-segment membership tests on the decoded value, 400-before-lookup)")
 LEVEL_TEXT = ("Decides, on every path of the type-checked MIR of the current tree, the structural clauses of C03: the request path is split on '/' "
               "on the raw text, empty segments are filtered, each segment is percent-decoded exactly once (single call site, argument = an element of the split), "
               "UTF-8 failure propagates, every segment handed on is the decoded value and is reached only on paths where the *decoded* value was found different from "
               "'.' and '..', and in lookup_route the segment error becomes HttpError::for_bad_request (evaluated status 400) on an edge that excludes every handler selection. "
-              "The rules are written over data flow and path facts, so iterator chains, explicit loops, `?` or `match`, `a || b` or nested ifs, and extracted helper functions are all accepted. "
+              "The rules are written over data flow and path facts and anchor on roles, not on places: the per-segment step is whatever holds the single decoding call — a closure passed to map / filter_map, "
+              "the closure of `(!piece.is_empty()).then(..)`, a loop body, or the `next` of a private iterator struct wrapping the Split that input_path_to_segments builds and collects; the dot-segment test is any "
+              "membership test of the decoded value (==, !=, match, a const lookup table searched with contains / any, with the table's evaluated contents ⊇ {'.', '..'}); the handler selections are all call sites of "
+              "find_handler_matching_version in the crate, wherever the second half of the lookup lives; the walk may be an iterator or a slice cursor over the validated Vec, and the raw path may go nowhere else. "
+              "So iterator chains, explicit loops, `?` or `match`, `a || b` or nested ifs, and extracted helper functions are all accepted. "
               "It does not decide percent-encoding's or from_utf8's own correctness.")
 LEVEL_NOTE = "Trusts rustc MIR construction, the fact extractor, percent_encoding::percent_decode_str/decode_utf8 and str::split semantics."
 EXPLANATION = ("Static rules over MIR facts extracted from /repo's current source: who-calls census of percent-decoding, element-origin analysis (the decoded value is an element of "
-               "split(path,'/')), backward slices (CHAIN) from every segment sink to decode_utf8, comparison sites against the constants \".\"/\"..\" with their "
-               "operand slices, path-sensitive boolean facts at every segment sink, and the Ok/Err split of the segment result in lookup_route.")
+               "split(path,'/'), followed through closure captures, adaptor item parameters, next/find and the field of a hand-written iterator), backward slices (CHAIN) from every "
+               "segment sink to decode_utf8, membership tests of the decoded value against \".\"/\"..\" (comparisons and evaluated const tables) with their operand slices, "
+               "path-sensitive boolean facts at every segment sink, and the Ok/Err split of the segment result in lookup_route with the entry points of every handler selection.")
 TRUSTED = ["rustc nightly MIR construction + const evaluation", "mirfacts extractor", "rules/engine.py dominators, slices, bool_states_at",
            "percent_encoding::percent_decode_str / PercentDecode::decode_utf8", "core::str::split"]
 
@@ -34,7 +40,7 @@ def _seg_fns(ctx, R):
 
 def r1_decode_once(ctx):
     R = ctx.rule("C03.R1", "percent-decoding has exactly one call site on the request path; its argument is an element of str::split(path,'/') with empty elements "
-                 "filtered out and nothing in between; the decoded value goes through decode_utf8 whose Err propagates; every segment handed on is that decoded value", floor=7)
+                 "filtered out and nothing in between; the decoded value goes through decode_utf8 whose Err propagates; every segment handed on is that decoded value", floor=8)
     top, fns, carriers = _seg_fns(ctx, R)
     sites = callers(ctx.dsn, DECODE)
     inside = [(f, bb, t) for f, bb, t in sites if f in fns]
@@ -47,7 +53,6 @@ def r1_decode_once(ctx):
         return
     f, bb, t = inside[0]
     arg = t["args"][0]
-    sl = f.slice(arg)
     origins = element_origins(ctx.dsn, f, arg, bb)
     # nothing is applied to the raw piece on its way to the decoder, in any function it crosses (closure captures included)
     between = [r"str::<impl str>::split$", r"iter::Iterator::(filter|find)$"]
@@ -210,12 +215,13 @@ def ps_forward_calls(lr, seg_call, path_params):
     """Callees (other than input_path_to_segments and value-preserving plumbing) that receive a value derived from lookup_route's
     path parameter without it having gone through input_path_to_segments: a second parse of the raw path."""
     out = set()
+    thr = "|".join(PLUMBING)      # follow the value through borrows / derefs / conversions only: report its first real consumer
     for bb, t in lr.live_calls():
         c = t.get("callee") or "<indirect>"
         if t is seg_call or any(re.search(p, c) for p in PLUMBING):
             continue
         for a in t["args"]:
-            if a.get("k") in ("copy", "move") and set(lr.slice(a, stop_at_calls=r"^router::input_path_to_segments$").params()) & set(path_params):
+            if a.get("k") in ("copy", "move") and set(lr.slice(a, through=thr).params()) & set(path_params):
                 out.add(c)
     return sorted(out)
 
@@ -223,6 +229,22 @@ def ps_forward_calls(lr, seg_call, path_params):
 RULES = [("C03.R1", r1_decode_once), ("C03.R2", r2_dot_segments), ("C03.R3", r3_400_before_lookup)]
 
 _RT = "dropshot/src/router.rs"
+_FILTER_MAP = "        .filter(|segment| !segment.is_empty())\n        .map(|segment| {\n"
+_CLOSE, _CLOSE2 = "            }\n        })\n        .collect()", "            }\n            })\n        })\n        .collect()"
+_DOT_MATCH = "            match decoded.as_ref() {\n                \".\" | \"..\" => Err(\"dot-segments are not permitted\".to_string()),\n                _ => Ok(decoded.to_string()),\n            }"
+_DOT_TABLE = ("            const DOTS: [&str; %s] = [%s];\n            if %s {\n                Err(\"dot-segments are not permitted\".to_string())\n"
+              "            } else {\n                Ok(decoded.into_owned())\n            }")
+_CHAIN = ("    path.0\n        .split('/')\n        .filter(|segment| !segment.is_empty())\n        .map(|segment| {\n"
+          "            // Decode first: a dot-segment is not permitted in any spelling,\n            // including percent-encoded forms such as \"%2e%2e\".\n"
+          "            let decoded = percent_decode_str(segment)\n                .decode_utf8()\n                .map_err(|e| e.to_string())?;\n" + _DOT_MATCH + "\n        })\n        .collect()\n}\n")
+_CARRIER = ("    DecodedSegments { pieces: path.0.split('/') }.collect()\n}\n\nstruct DecodedSegments<'a> {\n    pieces: std::str::Split<'a, char>,\n}\n\n"
+            "impl<'a> Iterator for DecodedSegments<'a> {\n    type Item = Result<String, String>;\n\n    fn next(&mut self) -> Option<Self::Item> {\n"
+            "        let piece = %s;\n        Some(match percent_decode_str(piece).decode_utf8() {\n            Err(not_utf8) => Err(not_utf8.to_string()),\n"
+            "            Ok(text) if text == \".\" || text == \"..\" => {\n                Err(\"dot-segments are not permitted\".to_string())\n            }\n"
+            "            Ok(text) => Ok(String::from(text)),\n        })\n    }\n}\n")
+_LR_HEAD = "        })?;\n        let mut all_segments = all_segments.into_iter();\n        let mut node = &self.root;\n"
+_LR_HELPER = ("        self.lookup_segments(method, all_segments.into_iter(), version)\n    }\n\n    fn lookup_segments(\n        &self,\n        method: &Method,\n"
+              "        mut all_segments: impl Iterator<Item = String>,\n        version: Option<&Version>,\n    ) -> Result<RouterLookupResult<Context>, HttpError> {\n        let mut node = &self.root;\n")
 SELFTEST = [
     {"name": "prefix-f1", "kind": "mutant", "revert": "04396fe", "expect": ["C03.R2"], "why": "dot test on the raw segment only (pre-fix code)"},
     {"name": "decode-before-split", "kind": "mutant", "edits": [(_RT, "    path.0\n        .split('/')", "    percent_decode_str(&path.0).decode_utf8_lossy()\n        .split('/')")],
@@ -237,4 +259,27 @@ SELFTEST = [
     {"name": "or-flag", "kind": "benign", "edits": [(_RT, "            match decoded.as_ref() {\n                \".\" | \"..\" => Err(\"dot-segments are not permitted\".to_string()),\n                _ => Ok(decoded.to_string()),\n            }",
                                                    "            let is_dot = decoded == \".\" || decoded == \"..\";\n            if is_dot {\n                Err(\"dot-segments are not permitted\".to_string())\n            } else {\n                Ok(decoded.into_owned())\n            }")],
      "why": "same test through a named boolean"},
+    # --- idioms accepted by role (each with a mutant written in the same idiom)
+    {"name": "filter-map-then", "kind": "benign", "edits": [(_RT, _FILTER_MAP, "        .filter_map(|segment| {\n            (!segment.is_empty()).then(|| {\n"), (_RT, _CLOSE, _CLOSE2)],
+     "why": "filter + map merged into filter_map(|p| (!p.is_empty()).then(|| step)): the step is a closure nested in the adaptor's closure, the piece a capture"},
+    {"name": "filter-map-then-on-empty", "kind": "mutant", "edits": [(_RT, _FILTER_MAP, "        .filter_map(|segment| {\n            segment.is_empty().then(|| {\n"), (_RT, _CLOSE, _CLOSE2)],
+     "expect": ["C03.R1"], "why": "the same shape with the condition inverted: only empty pieces reach the decoder, non-empty ones vanish"},
+    {"name": "dot-table", "kind": "benign", "edits": [(_RT, _DOT_MATCH, _DOT_TABLE % ("2", '".", ".."', "DOTS.contains(&decoded.as_ref())"))],
+     "why": "dot-segment test through a const lookup table (evaluated contents {'.', '..'})"},
+    {"name": "dot-table-any", "kind": "benign", "edits": [(_RT, _DOT_MATCH, _DOT_TABLE % ("2", '".", ".."', "DOTS.iter().any(|d| *d == decoded)"))],
+     "why": "the same table searched with iter().any(== decoded)"},
+    {"name": "dot-table-without-dot", "kind": "mutant", "edits": [(_RT, _DOT_MATCH, _DOT_TABLE % ("1", '".."', "DOTS.contains(&decoded.as_ref())"))],
+     "expect": ["C03.R2"], "why": "the table lacks '.': a '.' segment reaches handlers"},
+    {"name": "carrier-iterator", "kind": "benign", "edits": [(_RT, _CHAIN, _CARRIER % "self.pieces.find(|piece| !piece.is_empty())?")],
+     "why": "the adaptor chain replaced by a private struct wrapping Split with a hand-written Iterator impl (the step is its `next`)"},
+    {"name": "carrier-iterator-keeps-empties", "kind": "mutant", "edits": [(_RT, _CHAIN, _CARRIER % "self.pieces.next()?")],
+     "expect": ["C03.R1"], "why": "the hand-written iterator takes every piece of the split: empty segments are decoded and handed on"},
+    {"name": "lookup-helper", "kind": "benign", "edits": [(_RT, _LR_HEAD, "        })?;\n" + _LR_HELPER)],
+     "why": "lookup_route split at the normalisation boundary: the walk and the handler selection live in a helper called on the Ok side only"},
+    {"name": "lookup-helper-on-error-too", "kind": "mutant", "edits": [(_RT, "        let all_segments = input_path_to_segments(&path).map_err(|_| {\n            HttpError::for_bad_request(\n                None,\n                String::from(\"invalid path encoding\"),\n            )\n" + _LR_HEAD,
+                                                                     "        let all_segments = match input_path_to_segments(&path) {\n            Ok(segments) => segments,\n            Err(_) => Vec::new(),\n        };\n" + _LR_HELPER)],
+     "expect": ["C03.R3"], "why": "the same split, but a rejected path is routed as '/': the helper's handler selection is reached from the Err case"},
+    {"name": "walk-reparsed-path", "kind": "mutant", "edits": [(_RT, "        })?;\n        let mut all_segments = all_segments.into_iter();\n",
+                                                             "        })?;\n        drop(all_segments);\n        let mut all_segments = path.0.split('/').filter(|s| !s.is_empty()).map(String::from).collect::<Vec<String>>().into_iter();\n")],
+     "expect": ["C03.R3"], "why": "the path is validated but the walk uses a second, undecoded and unchecked parse of the raw path"},
 ]
